@@ -23,6 +23,36 @@ META = {
         text="Generated worlds with arbitrary global constants, both coordinate systems, points far from every feature by construction (and any point the code itself tags -1), depths incl. 0, negative and huge, any property list: temperature must equal Tp*exp(alpha*g*d/cp) to 1e-13, everything else exactly the background. With forcing on, every temperature slot at depth 0 equals the surface temperature inside and outside features.",
         note="Closed form evaluated in double; 'outside' by construction or by the code's own tag.",
         design="DESIGN.md section 4, C03"),
+    "C04": dict(
+        technique="property-based testing (rapidcheck): exact integer point-in-polygon oracle on lattice polygons (boundary included), long-double oracle with ambiguity band off the lattice, plume ellipse/half-ellipsoid oracle written from the statement",
+        text="Single-feature worlds with an indicator composition and tag. Membership is asserted in both directions (inside => painted, outside => untouched) over all lattice and half-lattice points around generated simple polygons (convex/concave, both orientations, footprints written across and beyond +-180) and closed depth intervals incl. the end points and their floating-point neighbours; plumes against the interpolated ellipse with cyclic rotation-angle interpolation, head half-ellipsoid and continuation below the deepest section.",
+        note="Boundary points only where coordinates are exactly representable; elsewhere a 1e-9 band is skipped. Plume longitude aliases are left to C08.",
+        design="DESIGN.md section 4, C04"),
+    "C09": dict(
+        technique="property-based testing (rapidcheck): differential 2D entry point vs 3D entry point at the independently mapped point, velocity projection oracle, boundary-robust comparison",
+        text="Generated worlds with cross sections of any origin/direction in both coordinate systems; 2D points projected from feature-aimed queries; every property list. The statement's mapping is recomputed independently, the 3D answer at the mapped point must equal the 2D answer (velocity as in-section component, vertical, 0 in cartesian worlds); worlds without cross section must refuse all four 2D entry points.",
+        note="Tolerance 1e-7 relative because the mapped point is recomputed (rounding); cases next to a discontinuity of the 3D answer are skipped and counted.",
+        design="DESIGN.md section 4, C09"),
+    "C12": dict(
+        technique="property-based testing (rapidcheck, one process per case) with a walker over the schema emitted by the tree under test + coverage-guided fuzzing (libFuzzer, ASan+UBSan): byte-level target and structure-aware target",
+        text="(1) A valid generated world plus exactly one injected violation of the published schema (unknown key, missing required key, wrong JSON type, bad enum, wrong version), or one documented parallel list of different length, or an option documented as unavailable: the constructor must throw std::exception with a message. (2) Two formattings (whitespace, comments, key order, integer spellings) of one world must be accepted alike and answer bit-identically. (3) Schema-valid worlds with extreme numbers / emptied lists and arbitrary bytes: constructor and queries may throw but never crash; under libFuzzer every execution is checked by ASan/UBSan.",
+        note="Schema reading is done by engine/schema_walk.h against the schema emitted at run time; UBSan is off inside the vendored rapidjson (see engine/ubsan_ignorelist.txt). Fuzzing samples the input space; hangs are detected up to 300 s.",
+        design="DESIGN.md section 4, C12"),
+    "C13": dict(
+        technique="property-based testing (rapidcheck, one process per case) at targeted degenerate locations + structure-aware libFuzzer target under ASan/UBSan with a finiteness oracle",
+        text="Generated worlds inside the physical parameter domain, queried at polygon vertices/edges, trench coordinates and chords, dip point, slab tip region, below the trench, poles, +-180, planet centre (also |p|=1e-300), far away, model bottom, feature depth limits, with every property kind: the query returns only finite numbers or throws std::exception; a crash or hang of the child process is a failure.",
+        note="Degenerate *parameters* (zero specific heat etc.) are C12's domain and not asserted finite here.",
+        design="DESIGN.md section 4, C13"),
+    "C15": dict(
+        technique="stateful property-based testing (rapidcheck, one process per case): twin-world differential over query histories, engine-state comparison for seeds, invariants on every returned grain",
+        text="Worlds with random grains / random composition models in every feature type; seeds through the constructor and through 'random number seed'. Twin worlds queried alike agree bitwise at every step, worlds with different seeds start from different engine states, file seed equals constructor seed; every rotation matrix is orthonormal with determinant +1 (1e-12), normalised sizes sum to 1, fixed sizes come back verbatim, random compositions stay inside the bounds of their own entry.",
+        note="'a draw happened' is observed through World::get_random_number_engine().",
+        design="DESIGN.md section 4, C15"),
+    "C16": dict(
+        technique="property-based testing (rapidcheck): differential C API / C++ wrapper vs native World with identical call sequences; file-system observation of create_world's output directory",
+        text="Generated worlds, points, property lists and create_world arguments (flag null/false/true, output_dir null/empty/relative with trailing slash, seeds up to 2^33): every C function and C++ wrapper method must return the native bits; the four declaration files must appear exactly in the requested directory; the seed must reach the random engine.",
+        note="The reference world receives exactly the calls the wrapped world receives.",
+        design="DESIGN.md section 4, C16"),
     "C19": dict(
         technique="property-based testing (rapidcheck): brute-force / exact-integer / dense-sampling oracles for kd-tree, polygon test, Bezier closest point, spherical conversions, great-circle distance; complete enumeration of small lattice polygons",
         text="Generated search with shrinking over node sets, lattice polygons (random and exhaustive on small lattices), trench polylines and point pairs; each kernel is compared with its definition computed independently (brute force, exact __int128-free integer arithmetic, dense sampling, atan2 formula). Finds wrong answers on the explored inputs; does not prove absence.",
